@@ -4,3 +4,8 @@
 #include "C01_btree_common.hpp"
 
 PBT_PROPERTY(btree_model) { verif::bt::run_property(src, true); }
+
+// Scale classes: node capacities 255 ... 65535 (the largest the 16-bit slot counters admit), nodes actually filled
+// beyond half / beyond the 8-, 15- and 16-bit thresholds, then a cost-bounded history; same oracle. Configurations:
+// C01_btree_cfgs_*.cpp (quick) and C01_btree_cfgst_*.cpp (thorough), see run_scale_property in C01_btree_history.cpp.
+PBT_PROPERTY(btree_scale) { verif::bt::run_scale_property(src); }
